@@ -93,6 +93,29 @@ ExecBegin(b) ==
   /\ begun' = begun \cup Range(b)
   /\ UNCHANGED <<conf, added, sz, held, finished, returned, pc>>
 
+\* Public-API view (ExecutorTrace, kinds driven without access to the container): neither the
+\* moment an Add takes effect nor the moment a batch is taken is observable.  Every partition
+\* of the added tasks into runs of consecutive adds is produced by Takes placed at the ends of
+\* the runs, and batches taken earlier may begin later, so Take(b) followed - at any later
+\* time - by ExecBegin(b) is observationally the same as PubBegin(b) with `held` read as
+\* "added and not yet passed to execute":
+AddLinFree(p) ==
+  /\ pc[p].s = "add" /\ ~pc[p].lin
+  /\ added' = Append(added, pc[p].t)
+  /\ held' = Append(held, pc[p].t)
+  /\ pc' = [pc EXCEPT ![p].lin = TRUE]
+  /\ UNCHANGED <<conf, sz, pend, running, begun, finished, returned>>
+
+PubBegin(b) ==
+  /\ b # <<>> /\ Range(b) \subseteq Range(held)
+  /\ LET s == CHOOSE i \in 1..Len(added) : added[i] = b[1] IN
+       s + Len(b) - 1 <= Len(added) /\ SubSeq(added, s, s + Len(b) - 1) = b
+  /\ BoundOK(b)
+  /\ held' = SelectSeq(held, LAMBDA t : t \notin Range(b))
+  /\ running' = running \cup {b}
+  /\ begun' = begun \cup Range(b)
+  /\ UNCHANGED <<conf, added, sz, pend, finished, returned, pc>>
+
 ExecEnd(b) ==
   /\ b \in running
   /\ running' = running \ {b}
@@ -146,14 +169,19 @@ MCSpec == MCInit /\ [][MCNext]_avars
 Batches == pend \cup running
 InB(t, b) == \E i \in 1..Len(b) : b[i] = t
 Pos(t) == CHOOSE i \in 1..Len(added) : added[i] = t
+PendTasks == UNION {Range(b) : b \in pend}
+IsRun(b) == b = <<>> \/ (b[1] \in Range(added) /\ LET s == Pos(b[1]) IN
+                                                    s + Len(b) - 1 <= Len(added) /\ SubSeq(added, s, s + Len(b) - 1) = b)
 
-\* exactly once: every added task is in exactly one place, and is never executed twice
+\* exactly once: every added task is in exactly one place (container, a batch not yet begun, or
+\* passed to execute), and no task is in two batches
 ExactlyOnce ==
-  \A t \in Range(added) :
-     (IF InB(t, held) THEN 1 ELSE 0) + Cardinality({b \in pend : InB(t, b)}) + (IF t \in begun THEN 1 ELSE 0) = 1
+  /\ Cardinality(Range(added)) = Len(added) /\ Cardinality(Range(held)) = Len(held)
+  /\ Range(held) \cap PendTasks = {} /\ Range(held) \cap begun = {} /\ PendTasks \cap begun = {}
+  /\ Range(held) \cup PendTasks \cup begun = Range(added)
+  /\ \A b1, b2 \in Batches : b1 # b2 => Range(b1) \cap Range(b2) = {}
 \* a batch is a run of consecutively added tasks in the order they were added
-InOrder ==
-  \A b \in Batches : \A i \in 1..Len(b) : InB(b[i], added) /\ (i > 1 => Pos(b[i]) = Pos(b[i - 1]) + 1)
+InOrder == \A b \in Batches : IsRun(b)
 \* bulk: never more than max tasks; chunk: over the byte limit by less than the last task
 Bounded == \A b \in Batches : BoundOK(b)
 \* Wait soundness, as a property of every step
